@@ -11,7 +11,7 @@ import vlib, filegen, zckfmt
 
 THEOREMS = ["C02_read_close_success_is_verified_content_zstd", "C02_declared_sizes", "C02_unzck_exit0_output_zstd",
             "C02_read_close_success_is_verified_content", "C02_unzck_exit0_output", "C02_unzck_failure_no_output",
-            "C02_valid_file_reads_back"]
+            "C02_valid_file_reads_back", "C02_chunk_request_success_is_verified_content", "C02_chunk_request_one"]
 ASSUMPTIONS = [
     "model Read/CompRead.v is a hand transcription of comp.c / zck.c / hash.c / zstd.c / nocomp.c / io.c (read path), tied by differential execution on valid files and mutants",
     "H (hash) and zdecomp (one-shot zstd decoder, with the produced length) are parameters of model and spec, instantiated with OpenSSL and libzstd in the run; no property of them is assumed",
@@ -434,13 +434,94 @@ def build_cases(rng, tier, wd, impl, variant="asan"):
     return items
 
 
+def request_ops(b, k, variant):
+    """op lists around a data request for entry k: exact buffer, larger, smaller, after other requests"""
+    n = len(b.h.chunks)
+    ul = b.h.chunks[k][3]
+    k2 = 1 + (k % (n - 1)) if n > 1 else 0
+    return ["g%d" % k, "P%d:%d" % (k, ul + 5), "g%d,g%d" % (k, k2), "c%d,g%d" % (k, k), "G%d:%d,g%d" % (k, max(1, ul - 3), k),
+            "g0,g%d,g%d" % (k, k), "g%d,P%d:%d" % (k2, k, ul + 1)][variant % 7]
+
+
+def build_request_cases(rng, tier, bases):
+    """chunk requests on valid files and on their raw / re-sealed mutants"""
+    items = []
+    for b in bases:
+        if b.entries is None or len(b.h.chunks) < 2:
+            continue
+        n = len(b.h.chunks)
+        for k in range(n):
+            for v in range(7):
+                items.append(("req-valid:%s" % b.kind, b.f, False, b, "F %s %s" % (b.f.hex(), request_ops(b, k, v))))
+        ms = mutants(rng, b, tier)
+        for mi, (tag, fb, resealed) in enumerate(ms):
+            if tag.startswith("trunc") and mi % (5 if tier == "quick" else 2):
+                continue
+            if tier != "quick" and tag.startswith("flip") and mi % 3:
+                continue
+            k = 1 + mi % (n - 1)
+            items.append(("req:%s:%s" % (b.kind, tag), fb, resealed, b, "F %s %s" % (fb.hex(), request_ops(b, k, mi // max(1, n - 1)))))
+    return items
+
+
+def judge_requests(res, tag, line, i, m, base, resealed, fb, ierr=None):
+    """data requests with a buffer >= the declared size: success must mean that the stored chunk
+    matches its index checksum and that the bytes belonging to the chunk are the content the
+    specification decodes from the entry (and the original chunk for mutants that keep the header)"""
+    mres, spec = vlib.split_model(m)
+    key = "c02:%s:%s" % (tag.split("@")[0].replace("req:", "req-"), hashlib.sha256(line.encode()).hexdigest()[:12])
+    case = {"line": line, "tag": tag, "impl": i, "model": mres, "spec": spec, "kind": "request"}
+    if crashed(i):
+        if i != "NOTRUN":
+            res.violation("oracle", key, "chunk requests on a crafted file (%s) end in %s %s" % (tag, i, vlib.san_summary(ierr or "")), case)
+        return
+    if mres == "SKIP":
+        return
+    toks = i.split()
+    if toks and toks[0] == "open=1":
+        ph = parse(fb)
+        sf = spec_fields(spec)
+        centries = sf.get("C", "").split(",") if sf.get("C") else []
+        ops = line.split()[2].split(",")
+        for o, t in zip(ops, toks[1:]):
+            if o[0] not in "gGP" or "=" not in t or "nochunk" in t:
+                continue
+            k = int(o[1:].split(":")[0])
+            if ph is None or k >= len(ph[0].chunks):
+                continue
+            decl = ph[0].chunks[k][3]
+            size = int(o.split(":")[1]) if ":" in o else decl
+            val = t.split("=", 1)[1].split("!")[0].split("/")
+            ret = int(val[0])
+            if ret <= 0 or size < decl or decl == 0:
+                continue
+            if o[0] == "G" and size > decl:
+                continue
+            pre = val[3] if o[0] == "P" else val[2]
+            got = "%d/%s" % (min(ret, decl), pre)
+            want = centries[k] if k < len(centries) else "?"
+            if want != "1/" + got:
+                res.violation("oracle", key, "zck_get_chunk_data(entry %d, buffer %d >= declared %d) succeeds on a %s file and hands out %s for the chunk, but "
+                              "the specification says checksum-ok/content = %s" % (k, size, decl, tag, got, want), case)
+                return
+            if not resealed and base.entries is not None and k < len(base.entries) and ph[0].chunks == base.h.chunks:
+                orig = base.entries[k]
+                if got != "%d/%s" % (len(orig), h16(orig)):
+                    res.violation("oracle", key, "zck_get_chunk_data(entry %d) succeeds on a %s alteration of a valid file but the %s it returns is not the "
+                                  "original chunk (%d bytes)" % (k, tag, got, len(orig)), case)
+                    return
+    if i != mres:
+        res.violation("correspondence", key.replace(":", "-corr:", 1),
+                      "CompRead model and the library disagree on chunk requests (%s): model %s.. code %s.." % (tag, mres[:150], i[:150]), case)
+
+
 def run(res, tier, only_case=None):
     rng = vlib.Rng(vlib.seed())
     res.rule = ("valid files (zstd from the zck tool: no/raw/zstd-format dictionary, -u, empty-content chunk, multi-block and automatic chunks; "
                 "uncompressed from the reference encoder) and their mutants: single-bit flips over the body (quick: strided), substitutions, insertions, "
                 "deletions, every truncation length of the small files, re-sealed and unsealed structure edits (sizes +-1/+-10, digests, data digest, "
                 "chunk swaps in body/index/both, comp type, dropped/duplicated entries), each read to the end with buffer-size patterns "
-                "1, c-1, c, c+1, 32768 and mixtures, then closed; unzck on a sample. non-trivial = distinct file that opens (header checksum valid)")
+                "1, c-1, c, c+1, 32768 and mixtures, then closed; chunk requests (exact / larger / smaller buffer, after other requests, stored data) on the valid files and the mutants; unzck on a sample. non-trivial = distinct file that opens (header checksum valid)")
     impl = vlib.ensure_harness("zh_c02", "asan")
     model = vlib.ensure_model("C02")
     wd = vlib.scratch("C02")
@@ -453,9 +534,30 @@ def run(res, tier, only_case=None):
             return
     else:
         items = build_cases(rng, tier, wd, impl)
-    lines = [it[4] for it in items]
+    req_items = []
+    if only_case is not None and only_case["case"].get("kind") == "request":
+        c = only_case["case"]
+        fbr = vlib.unhex(c["line"].split()[1])
+        req_items = [(c.get("tag", "replay"), fbr, True, Base("replay", fbr, b"", None) if parse(fbr) else None, c["line"])]
+        items = []
+    elif only_case is None:
+        rrng = vlib.Rng(vlib.seed() + 77)
+        rwd = os.path.join(wd, "req")
+        os.makedirs(rwd, exist_ok=True)
+        req_items = build_request_cases(rrng, tier, base_files(rrng, rwd, impl, tier, small_only=True))
+    lines = [it[4] for it in items] + [it[4] for it in req_items]
     io, mo, ierrs = run_both(lines, wd, impl, model)
     errmap = dict(ierrs)
+    for j, (tag, fb, resealed, base, line) in enumerate(req_items):
+        kk = len(items) + j
+        res.evaluations += 1
+        res.count("request:" + tag.split(":")[0 if tag.startswith("req-valid") else 2].split("@")[0].rstrip("0123456789+-") +
+                  (":ok" if " g=-" not in io[kk] and " G=-" not in io[kk] else ":refused"))
+        if io[kk].startswith("open=1"):
+            res.nontrivial.add(hashlib.sha256(line.encode()).digest())
+        if base is not None:
+            judge_requests(res, tag, line, io[kk], mo[kk], base, resealed, fb, errmap.get(kk))
+    io, mo, lines = io[:len(items)], mo[:len(items)], lines[:len(items)]
     tool_sample = []
     for k, ((tag, fb, resealed, orig, line), i, m) in enumerate(zip(items, io, mo)):
         res.evaluations += 1
